@@ -1192,7 +1192,10 @@ class PseudoNetCDFFile(PseudoNetCDFSelfReg, object):
                 vals = np.ma.masked_equal(vals, equal)
 
             if invalid:
-                vals = np.ma.masked_invalid(vals)
+                # not masked_invalid: it fails for scalar (0-d) variables
+                # that are already masked
+                vals = np.ma.masked_where(
+                    ~np.isfinite(np.ma.getdata(vals)), vals)
 
             if verbose > 1:
                 t1 = time()
